@@ -170,10 +170,16 @@ func (e *Eval) Prepare(flags ...[]byte) error {
 	if len(e.instructions) > maxProgramSize || len(e.constants) > maxProgramSize {
 		return fmt.Errorf("the script is too large to compile")
 	}
+	names := []string{}
 	for name, fun := range e.functions {
 		if len(fun.Bytecode) > maxProgramSize {
-			return fmt.Errorf("the function %s is too large to compile", name)
+			names = append(names, name)
 		}
+	}
+	if len(names) > 0 {
+		// the functions are held in a map: name the same one each time
+		sort.Strings(names)
+		return fmt.Errorf("the function %s is too large to compile", names[0])
 	}
 
 	//
